@@ -188,8 +188,12 @@ def check_bare_names(prog: Program, res: Results, rid: str) -> None:
         return isinstance(a, ast.Call) and isinstance(a.func, ast.Attribute) and dotted(a.func.value) == "_NPATH_IDENTIFIER_RE" \
             and a.args and dotted(a.args[0]) == f"{pname}.name" and truth is True
 
+    def not_quoted(a, truth):
+        return dotted(a) == f"{pname}.quoted" and truth is False
+
     e_kw = edges_establishing(cfg, not_keyword)
     e_re = edges_establishing(cfg, matches_regex)
+    e_nq = edges_establishing(cfg, not_quoted)
     # keywords may alternatively be excluded by the regex language itself (negative lookahead) - not the shape we accept
     for rt in bare_returns:
         a = cfg.all_paths_pass(rt, cut_edges=e_kw)
@@ -203,6 +207,12 @@ def check_bare_names(prog: Program, res: Results, rid: str) -> None:
         if not b:
             res.add(rid, ("_format_attr_name", "bare form without identifier test"), fa.loc(rt.ast),
                     "the bare form is reachable without the identifier pattern having matched the name")
+        c_ = cfg.all_paths_pass(rt, cut_edges=e_nq)
+        r.ob(c_, {"bare_return": norm(rt.ast), "guard": "segment was not written in quotes"})
+        if not c_:
+            res.add(rid, ("_format_attr_name", "quoted segment written bare"), fa.loc(rt.ast),
+                    "the bare form is reachable for a segment the user wrote in quotes: lookups compare spellings (R-C12-3), so "
+                    "`set '\"version\"' 2` no longer finds `\"version\" = 1;` and appends a duplicate `version = 2;`")
     # quoted form: escape with interpolation escaping and wrap in quotes
     quoted = [n for n in cfg.nodes if n.kind == "return" and n not in bare_returns]
     for q in quoted:
@@ -524,6 +534,63 @@ def check_canonical_lookups(prog: Program, res: Results) -> None:
                         f"quoted NPath spelling (or vice versa) are treated as different attributes")
 
 
+
+# ----------------------------------------------------------------------------------- escape state machines
+def check_escape_machines(prog: Program, res: Results) -> None:
+    """R-C12-5: every quoted-state scanner follows Nix's rule: after a backslash the next character is taken literally
+    (whatever it is), a backslash outside an escape starts one, an unescaped quote ends the quoted state."""
+    from sa.dtable import outcome
+    r = res.rule("R-C12-5", "quoted-state scanners agree with Nix's lexer row by row: (escape pending, any char) -> only clears the "
+                 "escape; (no escape, backslash) -> sets it; (no escape, quote) -> leaves the quoted state; (no escape, other) -> "
+                 "neither — whatever the arrangement of the branches", floor=12)
+    machines = 0
+    for f in prog.all_functions():
+        if f.module.endswith("color.py"):
+            continue
+        for n in walk_no_nested(f.node):
+            if not (isinstance(n, ast.If) and isinstance(n.test, ast.Name)):
+                continue
+            q = n.test.id
+            body = n.body
+            consts = {}
+            for x in ast.walk(ast.Module(body=body, type_ignores=[])):
+                if isinstance(x, ast.Assign) and len(x.targets) == 1 and isinstance(x.targets[0], ast.Name) and isinstance(x.value, ast.Constant) \
+                        and isinstance(x.value.value, bool):
+                    consts.setdefault(x.targets[0].id, set()).add(x.value.value)
+            escs = [k for k, v in consts.items() if v == {True, False} and k != q]
+            if False not in consts.get(q, set()) or len(escs) != 1:
+                continue
+            e = escs[0]
+            chars = {norm(c.left) for c in ast.walk(ast.Module(body=body, type_ignores=[])) if isinstance(c, ast.Compare) and len(c.ops) == 1
+                     and isinstance(c.ops[0], ast.Eq) and isinstance(c.comparators[0], ast.Constant) and c.comparators[0].value in ("\\", '"')}
+            if len(chars) != 1:
+                continue
+            ch = chars.pop()
+            machines += 1
+            res.analysed_functions.add(f.key)
+            set_e, clr_e, leave = f"{e} = True", f"{e} = False", f"{q} = False"
+            rows = [
+                ("escape pending, backslash", {e: True, ch: "\\"}, {clr_e}, {set_e, leave}),
+                ("escape pending, quote", {e: True, ch: '"'}, {clr_e}, {set_e, leave}),
+                ("escape pending, other", {e: True, ch: "a"}, {clr_e}, {set_e, leave}),
+                ("no escape, backslash", {e: False, ch: "\\"}, {set_e}, {leave}),
+                ("no escape, quote", {e: False, ch: '"'}, {leave}, {set_e}),
+                ("no escape, other", {e: False, ch: "a"}, set(), {set_e, leave}),
+            ]
+            for name, env, must, never in rows:
+                r.instances += 1
+                o = outcome(body, env)
+                ok = must <= o.must and not (never & o.may)
+                r.ob(ok, {"scanner": f.key, "state": q, "row": name, "must": sorted(o.must & (must | never)), "may": sorted(o.may & (must | never))})
+                if not ok:
+                    res.add("R-C12-5", (f.key, q, "escape machine row", name), f.loc(n),
+                            f"{f.key}: in the `{q}` state with {name}, the scanner must do {sorted(must) or 'nothing'} and never "
+                            f"{sorted(never)}, but it must-does {sorted(o.must & (must | never | {clr_e}))} and may do "
+                            f"{sorted(o.may & (must | never))}: e.g. the name `a\\\\` (ending in an escaped backslash) is read with the closing "
+                            f"quote taken for an escaped one")
+    if machines < 3:
+        res.unclass(f"only {machines} quoted-state scanners recognised (expected the two of _split_attrpath and the one of _parse_npath)")
+
 def run(prog: Program) -> Results:
     res = Results("C12")
     check_writer(prog, res, "R-C12-1")
@@ -531,6 +598,7 @@ def run(prog: Program) -> Results:
     check_bare_names(prog, res, "R-C12-2")
     check_canonical_lookups(prog, res)
     check_segment_state(prog, res)
+    check_escape_machines(prog, res)
     res.tables.append("Nix lexical facts (keywords, bare alphabet, string escapes) embedded in sa/rules/c12.py")
     res.assumptions = ["Nix string lexing: \\n \\r \\t are control characters, any other \\x is x, a raw CR is normalised to LF"]
     return res
